@@ -1,21 +1,22 @@
 """genside — the second tie between the Python source and the Lean models: source-derived definitions.
 
 `harness/py2lean.py` translates the functions listed in `harness/gen_targets.json` from the CURRENT Python source into
-Lean; `lean/Fca/Gen/Equiv.lean` and `EquivOps.lean` prove each generated definition equal to the hand-written model.  This module asks,
+Lean; `lean/Fca/Gen/Equiv*.lean` prove each generated definition equal to the hand-written model.  This module asks,
 for one property, whether that is still so for the source as it is NOW:
 
   check_generated(prop) -> dict(problems=[...], regenerated_equal=bool, targets=[...], seconds=float, ...)
 
   * the regenerated text of the targets serving `prop` (and of the generated functions they call) is byte-identical to
-    the committed `lean/Fca/Gen/Generated.lean`  ->  no problem: the compiled library (`lake build`, run by the audit)
-    already certifies the equivalence;
-  * otherwise the new definitions and the text of `Equiv.lean` + `EquivOps.lean` are elaborated together in a scratch file (fresh
-    namespace, nothing under lean/Fca/ is written): success -> no problem (a harmless rewrite: the equivalence proof
-    still goes through for the new source); an error in the definition or in the equivalence theorems of a target
-    serving `prop`, or an `Untranslatable` construct in it -> one problem string naming the function and the first
-    Lean error.
+    the committed `lean/Fca/Gen/Generated*.lean` (one file per unit of `gen_targets.json`)  ->  no problem: the compiled
+    library (`lake build`, run by the audit) already certifies the equivalence;
+  * otherwise the new definitions of the units involved and the text of the `lean/Fca/Gen/Equiv*.lean` files that hold a
+    `-- @target` section of a target in scope (plus the Gen files those import) are elaborated together in a scratch
+    file (fresh namespace, nothing under lean/Fca/ is written): success -> no problem (a harmless rewrite: the
+    equivalence proof still goes through for the new source); an error in the definition or in the equivalence theorems
+    of a target serving `prop`, or an `Untranslatable` construct in it -> one problem string naming the function and the
+    first Lean error.
 
-  python harness/genside.py --regen       rewrite lean/Fca/Gen/Generated.lean from $FCAPY_REPO (maintenance)
+  python harness/genside.py --regen       rewrite lean/Fca/Gen/Generated*.lean from $FCAPY_REPO (maintenance)
   python harness/genside.py --check C05   print the dict
 """
 import json
@@ -33,8 +34,7 @@ sys.path.insert(0, HERE)
 import py2lean  # noqa: E402
 
 LEAN_DIR = os.path.join(VERIF, 'lean')
-EQUIV = [os.path.join(LEAN_DIR, 'Fca', 'Gen', f) for f in ('Equiv.lean', 'EquivOps.lean')]   # in import order
-OWN_MODULES = {'Fca.Gen.Generated', 'Fca.Gen.Equiv', 'Fca.Gen.EquivOps'}
+GEN_DIR = os.path.join(LEAN_DIR, 'Fca', 'Gen')
 NS, SCRATCH_NS = py2lean.NAMESPACE, 'Fca.GenScratch.Lists'
 ELAB_TIMEOUT_S = 900
 
@@ -82,6 +82,41 @@ def _sections(lines):
     return out
 
 
+def _equiv_files():
+    """module name -> (path, imports, body) of every lean/Fca/Gen/Equiv*.lean"""
+    out = {}
+    for f in sorted(os.listdir(GEN_DIR)):
+        if f.startswith('Equiv') and f.endswith('.lean'):
+            im, body = _split_imports(open(os.path.join(GEN_DIR, f)).read())
+            out['Fca.Gen.' + f[:-5]] = (os.path.join(GEN_DIR, f), im, body)
+    return out
+
+
+def _plan(cfg, scope, by):
+    """which generated units and which Equiv files the scratch elaboration needs (in dependency order): the Equiv
+    files with a `-- @target` section of a target in scope, everything of lean/Fca/Gen they import, transitively"""
+    eq = _equiv_files()
+    unit_mod = {py2lean.unit_module(cfg, u): u for u in py2lean.units(cfg)}
+    unit_imports = {u: py2lean.units(cfg)[u]['imports'] for u in py2lean.units(cfg)}
+    want_eq = {m for m, (_, _, body) in eq.items()
+               if any(re.search(r'^\s*-- @target ' + re.escape(k) + r'\s*$', body, re.M) for k in scope)}
+    want_units = {by[k].get('unit', '') for k in scope}
+    todo = list(want_eq) + [py2lean.unit_module(cfg, u) for u in want_units]
+    seen, order = set(), []
+
+    def visit(m):
+        if m in seen:
+            return
+        seen.add(m)
+        for d in (eq[m][1] if m in eq else unit_imports[unit_mod[m]] if m in unit_mod else []):
+            if d in eq or d in unit_mod:
+                visit(d)
+        order.append(m)
+    for m in sorted(todo):
+        visit(m)
+    return [unit_mod[m] for m in order if m in unit_mod], [m for m in order if m in eq], eq, set(eq) | set(unit_mod)
+
+
 def check_generated(prop):
     t0 = time.time()
     cfg = py2lean.load_config()
@@ -92,13 +127,14 @@ def check_generated(prop):
                untranslatable={}, elaborated=False, seconds=0.0, repo=py2lean.repo())
     if not serving:
         return res
-    try:
-        committed_text = open(py2lean.GENERATED).read()
-    except OSError as e:
-        res['problems'].append(f'generated definitions: cannot read {py2lean.GENERATED}: {e}')
-        res['regenerated_equal'] = False
-        return res
-    committed = py2lean.split_blocks(committed_text)
+    committed = {}
+    for u in py2lean.units(cfg):
+        try:
+            committed.update(py2lean.split_blocks(open(py2lean.unit_path(cfg, u)).read()))
+        except OSError as e:
+            res['problems'].append(f'generated definitions: cannot read {py2lean.unit_path(cfg, u)}: {e}')
+            res['regenerated_equal'] = False
+            return res
     blocks, errors, order = py2lean.translate_all(cfg)
     # what a target's meaning depends on: its own text and the text of the generated functions it calls
     deps = _deps({k: (blocks[k] or committed.get(k)) for k in order})
@@ -117,14 +153,17 @@ def check_generated(prop):
 
     # ---- elaborate the new definitions together with the equivalence proofs, outside the library
     use = {k: (blocks[k] if blocks[k] is not None else committed.get(k)) for k in order}
-    new_text = py2lean.assemble(cfg, use, order)
-    g_imports, g_body = _split_imports(new_text)
+    unit_order, eq_order, eq, own = _plan(cfg, scope, by)
+    g_imports, g_body = [], ''
+    for u in unit_order:
+        im, body = _split_imports(py2lean.assemble(cfg, use, order, u))
+        g_imports += im
+        g_body += body + '\n'
     e_imports, e_body = [], ''
-    for f in EQUIV:
-        im, body = _split_imports(open(f).read())
-        e_imports += im
-        e_body += body + '\n'
-    imports = [m for m in dict.fromkeys(g_imports + e_imports) if m not in OWN_MODULES]
+    for m in eq_order:
+        e_imports += eq[m][1]
+        e_body += eq[m][2] + '\n'
+    imports = [m for m in dict.fromkeys(g_imports + e_imports) if m not in own]
     head = [f'import {m}' for m in imports]
     g_lines = g_body.replace(NS, SCRATCH_NS).split('\n')
     e_lines = e_body.replace(NS, SCRATCH_NS).split('\n')
@@ -167,12 +206,14 @@ def check_generated(prop):
 def regen():
     cfg = py2lean.load_config()
     blocks, errors, order = py2lean.translate_all(cfg)
-    text = py2lean.assemble(cfg, blocks, order)
-    with open(py2lean.GENERATED, 'w') as f:
-        f.write(text)
+    by = {t['lean']: t for t in cfg['targets']}
+    for u in py2lean.units(cfg):
+        with open(py2lean.unit_path(cfg, u), 'w') as f:
+            f.write(py2lean.assemble(cfg, blocks, order, u))
+        n = sum(1 for k in order if blocks[k] and by[k].get('unit', '') == u)
+        print(f'wrote {py2lean.unit_path(cfg, u)}: {n} definitions from {py2lean.repo()}')
     for k, e in errors.items():
         print(f'left out: {k}: {e}', file=sys.stderr)
-    print(f'wrote {py2lean.GENERATED}: {sum(1 for k in order if blocks[k])} definitions from {py2lean.repo()}')
 
 
 if __name__ == '__main__':
